@@ -278,7 +278,7 @@ def run_one(seed, preset=None, tier="quick", want_case=False):
             if payload is None:
                 faults["none_payload"] = faults.get("none_payload", 0) + 1
     r["faults"] = faults
-    r["sched_kinds"] = {sch[0]: 1}
+    r["sched_kinds"] = {sch[0] + ("+eager" if sch[2].endswith("+eager") else ""): 1}
     r["metrics"] = {"subscriptions": len(subs), "events": sum(len(s.events) for s in subs), "queries_alongside": len(queries),
                     "max_streams_active_together": overlap}
     r["probes"] = {"refused_subscription": int(any(s.refused for s in subs)), "empty_stream": int(any(not s.refused and not s.events for s in subs)),
